@@ -271,7 +271,7 @@ theorem floatLogic_int_noMatch (u : Uni) (k : IntConst) (hk : k.WF) (rest : List
     unfold floatLogic
     simp only [List.cons_append, h1, h2, h3]
     obtain ⟨hk1, hk2, hk3⟩ := hm
-    have hc1 : (m.kind == FloatKind.exponent && !goodExponent u m.exp) = false := by rw [hk1]; rfl
+    have hc1 : (m.kind != FloatKind.hexadecimal && !m.exp.isEmpty && !goodExponent u m.exp) = false := by rw [hk1]; rfl
     have hc2 : (m.kind == FloatKind.hexadecimal && !m.const.contains '.' && m.exp.isEmpty) = true := by
       rw [hk1, hk2, hk3]
       have : ('0' :: x :: k.digits).contains '.' = false := by
